@@ -330,7 +330,8 @@ def analyse_checks_module(ctx):
         orig = ev._np_call
 
         def hook(name, args, kwargs, node):
-            if name == "allclose":
+            if name in ("allclose", "isclose"):
+                # (isclose(x, y).all() on scalars or arrays is the same predicate)
                 log.append((args, kwargs, node))
                 return (len(log) - 1) != fail
             return orig(name, args, kwargs, node)
